@@ -203,6 +203,97 @@ fn virtual_row_family(r: &mut Rng, thorough: bool, lines: &mut Vec<String>) {
     }
 }
 
+/// Family aimed at the 12-entry layer stack: within the statement's bounds (4 layers, 6 keys) a `multi`
+/// of several layer-while-held actions holds 3-4 layers per key, so 2-4 pressed keys hold 6-16 layers;
+/// then a key that is transparent on every held layer (base layer expected) and a key that is mapped
+/// on the OLDEST held layer only are pressed.
+fn many_held_layers_family(r: &mut Rng, thorough: bool, lines: &mut Vec<String>) {
+    let ks: Vec<u16> = ["a", "b", "c", "d", "e", "f"].iter().map(|k| code(k)).collect();
+    for dg in [false, true] {
+        for four in [false, true] {
+            let (ma, mb) = if four {
+                ("(multi (layer-while-held l1) (layer-while-held l2) (layer-while-held l2) (layer-while-held l2))",
+                 "(multi (layer-while-held l2) (layer-while-held l3) (layer-while-held l2) (layer-while-held l3))")
+            } else {
+                ("(multi (layer-while-held l1) (layer-while-held l2) (layer-while-held l3))",
+                 "(multi (layer-while-held l2) (layer-while-held l3) (layer-while-held l2))")
+            };
+            let cfg = format!(
+                "(defcfg transparent-key-resolution layer-stack delegate-to-first-layer {})
+(defsrc a b c d e f)
+(deflayer l0 {ma} {mb} {mb} {mb} x q)
+(deflayer l1 _ _ _ _ _ y)
+(deflayer l2 _ _ _ _ _ _)
+(deflayer l3 _ _ _ _ _ _)
+",
+                if dg { "yes" } else { "no" }
+            );
+            for npress in 2..=4usize {
+                for rev_release in [false, true] {
+                    let mut h = vec![];
+                    for k in &ks[..npress] {
+                        h.push(HEv::Press(0, *k));
+                        h.push(HEv::Tick(2));
+                    }
+                    for k in [ks[4], ks[5]] {
+                        h.push(HEv::Press(0, k));
+                        h.push(HEv::Tick(2));
+                        h.push(HEv::Release(0, k));
+                        h.push(HEv::Tick(2));
+                    }
+                    let mut rel: Vec<u16> = ks[..npress].to_vec();
+                    if rev_release {
+                        rel.reverse();
+                    }
+                    for k in rel {
+                        h.push(HEv::Release(0, k));
+                        h.push(HEv::Tick(1));
+                    }
+                    h.push(HEv::Tick(6));
+                    lines.push(mk_line("LAY", false, &cfg, &h));
+                }
+            }
+            for _ in 0..(if thorough { 200 } else { 12 }) {
+                let n_ev = r.range(6, 16) as usize;
+                let h = consistent_history(r, &ks, n_ev, &[0, 1, 2], 6);
+                lines.push(mk_line("LAY", false, &cfg, &h));
+            }
+        }
+    }
+}
+
+/// Family aimed at the emission step: several held keys with the SAME output key (the layout's key
+/// list then holds it more than once) that go away in one tick through release-key / release-layer.
+fn duplicate_output_family(r: &mut Rng, thorough: bool, lines: &mut Vec<String>) {
+    let ks: Vec<u16> = ["a", "b", "c", "d"].iter().map(|k| code(k)).collect();
+    for out in ["lsft", "x"] {
+        for (c3, c4) in [(format!("(release-key {out})"), "y".to_string()), ("(layer-while-held l1)".to_string(), format!("(multi {out} S-{})", if out == "x" { "w" } else { "x" }))] {
+            let cfg = format!(
+                "(defsrc a b c d)
+(deflayer l0 {out} {out} {c3} {c4})
+(deflayer l1 (release-key {out}) _ _ (release-layer l1))
+"
+            );
+            let mut h = vec![];
+            for k in &ks[..3] {
+                h.push(HEv::Press(0, *k));
+                h.push(HEv::Tick(3));
+            }
+            for k in &ks[..3] {
+                h.push(HEv::Release(0, *k));
+                h.push(HEv::Tick(2));
+            }
+            h.push(HEv::Tick(6));
+            lines.push(mk_line("LAY", false, &cfg, &h));
+            for _ in 0..(if thorough { 150 } else { 15 }) {
+                let n_ev = r.range(3, 12) as usize;
+                let h = consistent_history(r, &ks, n_ev, &[0, 1, 2], 6);
+                lines.push(mk_line("LAY", false, &cfg, &h));
+            }
+        }
+    }
+}
+
 pub fn gen(tier: &str, seed: u64) -> Vec<String> {
     let mut r = Rng::new(seed ^ 0xC04);
     let thorough = tier == "thorough";
@@ -240,6 +331,10 @@ pub fn gen(tier: &str, seed: u64) -> Vec<String> {
     }
     // transparent actions on the virtual-key row
     virtual_row_family(&mut r, thorough, &mut lines);
+    // their own stream, so that the families above keep their cases
+    let mut r2 = Rng::new(seed ^ 0xC04B);
+    many_held_layers_family(&mut r2, thorough, &mut lines);
+    duplicate_output_family(&mut r2, thorough, &mut lines);
     lines
 }
 
@@ -247,6 +342,80 @@ pub fn gen(tier: &str, seed: u64) -> Vec<String> {
 /// `lay::eval` plus the comparison of the layer table the real parser built with the generator's
 /// intent (when the configuration carries one): ` TBL=ok` or ` TBL=diff:<layer>.<code>:<got>!=<want>`
 pub fn eval(line: &str) -> String {
+    let out = eval_tbl(line);
+    if out.starts_with("rej") || out.starts_with("crash") {
+        return out;
+    }
+    let p = lay::parse_line(line);
+    let (os, max_held) = os_emission_verdict(&p.cfg_text, &p.hist);
+    // MAXHELD (the largest number of layers held at once, read from the real layout after every
+    // tick) is a diagnosis for the known-finding matcher; the runner strips it before comparing
+    format!("{out} OS={os} MAXHELD={max_held}")
+}
+
+/// The emission step on the real `Kanata` (simulated output sink): the OS key events must be the
+/// ordered, de-duplicated diff of consecutive key lists - never a release of a key that is up at the
+/// OS, never a press of a key that is down. `ok`, or the first offending event.
+fn os_emission_verdict(cfg_text: &str, hist: &[HEv]) -> (String, usize) {
+    let (v, m) = os_emission_run(cfg_text, hist);
+    (v.unwrap_or_else(|| "ok".into()), m)
+}
+
+fn os_emission_run(cfg_text: &str, hist: &[HEv]) -> (Option<String>, usize) {
+    use crate::kan::Runner;
+    use kanata_keyberon::layout::State;
+    use kanata_state_machine::oskbd::KeyValue;
+    if hist.iter().any(|e| matches!(e, HEv::Press(r, _) | HEv::Release(r, _) if *r != 0)) {
+        return (None, 0); // virtual-key rows are operated on the layout directly
+    }
+    let mut r = match Runner::new(cfg_text) {
+        Ok(r) => r,
+        Err(_) => return (None, 0),
+    };
+    let mut max_held = 0usize;
+    for e in hist {
+        match e {
+            HEv::Press(_, y) => r.input(*y, KeyValue::Press),
+            HEv::Release(_, y) => r.input(*y, KeyValue::Release),
+            HEv::Tick(n) => {
+                for _ in 0..*n {
+                    r.tick();
+                    let held = r.k.layout.b().states.iter().filter(|s| matches!(s, State::LayerModifier { .. })).count();
+                    max_held = max_held.max(held);
+                }
+            }
+        }
+    }
+    (os_scan(&r.out), max_held)
+}
+
+fn os_scan(out: &[String]) -> Option<String> {
+    let mut down: Vec<String> = vec![];
+    for item in out {
+        let mut it = item.split(' ');
+        let at = it.next().unwrap_or("");
+        for ev in it {
+            if let Some(k) = ev.strip_prefix('d') {
+                if k.chars().all(|c| c.is_ascii_digit()) {
+                    if down.iter().any(|d| d == k) {
+                        return Some(format!("dup-press:{k}{at}"));
+                    }
+                    down.push(k.to_string());
+                }
+            } else if let Some(k) = ev.strip_prefix('u') {
+                if k.chars().all(|c| c.is_ascii_digit()) {
+                    if !down.iter().any(|d| d == k) {
+                        return Some(format!("dup-release:{k}{at}"));
+                    }
+                    down.retain(|d| d != k);
+                }
+            }
+        }
+    }
+    None
+}
+
+fn eval_tbl(line: &str) -> String {
     let out = lay::eval(line);
     if out.starts_with("rej") || out.starts_with("crash") {
         return out;
